@@ -485,7 +485,7 @@ def translator_cases(draw, tier):
     case = {"kind": kind, "seed": draw(st.integers(0, 10 ** 6))}
     if kind == "iqp":
         n = draw(st.integers(1, 4))
-        depth = draw(st.integers(0, 3))
+        depth = draw(st.integers(1, 3))  # IQPansatz refuses empty params
         case["n"] = n
         case["params"] = [draw(st.integers(-8, 8)) / 8 for _ in range(3)]\
             if n == 1 else [[draw(st.integers(-8, 8)) / 8
